@@ -304,12 +304,20 @@ def adapter_selections(summ, pkg=None):
     and a lookup table built from the rows (`{name: adapter_cls for name, _, adapter_cls in ADAPTERS}[key](...)`).
     Yields dicts: event, form ('loop' | 'table'), elem (the row term), key (table form: the lookup key; the dict is
     keyed by column `keycol`), loop id."""
-    from sa.sym import walk
+    from sa.sym import conjuncts, walk
     pkg = pkg or AOEF_PKG
     table = ("global", f"{pkg}:ADAPTERS", "assign")
     out = []
     for c in summ.calls:
         f = c.term[1]
+        # next() form: next((row[2] for row in ADAPTERS if <test>), None)(...)
+        if f[0] == "call" and f[1] == ("builtin", "next") and len(f[2]) == 2 and f[2][1] == ("const", None) and f[2][0][0] == "comp" \
+                and f[2][0][1] == "gen" and len(f[2][0][3]) == 1 and f[2][0][3][0][1] == table:
+            lid, _, conds = f[2][0][3][0]
+            if f[2][0][2] == ("sub", ("elem", lid), ("const", 2)):
+                out.append({"event": c, "form": "next", "elem": ("elem", lid), "loop": lid, "conds": list(conds), "default_guard":
+                            ("cmp", "isnot", f, ("const", None)) in conjuncts(c.live)})
+            continue
         if f[0] != "sub":
             continue
         # loop form: elem(L)[2] with L a statement loop over ADAPTERS
@@ -318,9 +326,10 @@ def adapter_selections(summ, pkg=None):
             if li is not None and li.iter == table and li.kind == "for":
                 out.append({"event": c, "form": "loop", "elem": f[1], "loop": li.id})
                 continue
-        # table form: {row[i]: row[2] for row in ADAPTERS}[key]
+        # table form: {row[i]: row[2] for row in ADAPTERS}[key]  (also over reversed(ADAPTERS): names are distinct)
         d, key = f[1], f[2]
-        if d[0] == "comp" and d[1] == "dict" and len(d[3]) == 1 and d[3][0][1] == table and not d[3][0][2]:
+        if d[0] == "comp" and d[1] == "dict" and len(d[3]) == 1 and d[3][0][1] in (table, ("call", ("builtin", "reversed"), (table,), ())) \
+                and not d[3][0][2]:
             e = ("elem", d[3][0][0])
             kv = d[2]
             if kv[0] == "kv" and kv[2] == ("sub", e, ("const", 2)) and kv[1][0] == "sub" and kv[1][1] == e and kv[1][2][0] == "const":
